@@ -96,9 +96,12 @@ def write_realm_table(path, maxfields=None):
                 for m in sch.messages[mt].members:
                     if not m.group:
                         home.setdefault(m.num, mt)
+            used = set()
+            for _, sect in sch.all_sections():
+                used.update(sect.nums())
             for num in sorted(sch.by_num):
                 fld = sch.by_num[num]
-                if not fld.values:
+                if not fld.values or num not in used:   # f8c emits only fields some message uses
                     continue
                 f.write('F %s %d %s %s %s\n' % (cname, num, fld.base, fld.type, home.get(num, '-')))
                 for e, d in fld.values:
@@ -135,7 +138,9 @@ def write_lookup_table(path):
                 f.write('S %s %s %d\n' % (msg, ','.join(map(str, gpath)) or '-', len(s.members)))
                 for m in s.members:
                     used.add(m.num)
-                    f.write('m %d %d %d %d\n' % (m.num, m.pos, 1 if m.required else 0, 1 if m.group else 0))
+                    # 8/9/35/10 are added by the framework itself ("automatic"), their mandatory flag is not demanded
+                    mand = 2 if (msg in ('header', 'trailer') and not gpath and m.num in (8, 9, 35, 10)) else (1 if m.required else 0)
+                    f.write('m %d %d %d %d\n' % (m.num, m.pos, mand, 1 if m.group else 0))
                 for m in s.members:
                     if m.group:
                         sect(msg, gpath + [m.num], m.group)
